@@ -170,7 +170,7 @@ func (h *srvHandler) Handle(ctx context.Context, req packet.Request) (packet.Res
 		return nil, errors.New("handler failed: database is down")
 	case HPanic:
 		// what handlers panic with in practice: a string, an error, a runtime error, a value of a type that cannot be compared
-		switch seq % 4 {
+		switch h.seed % 4 { // one kind per run: a handler that fails keeps failing the same way
 		case 1:
 			panic(errors.New("handler panics on purpose (error value)"))
 		case 2:
